@@ -239,6 +239,10 @@ def run_hash_rules(ctx: Ctx, pfx: str):
         n_value += 1
         attrs, keys, problems = self_reads(repo, c, fn)
         bad = attrs & FORBIDDEN_IN_VALUE_HASH
+        if c == "ReferenceCitation":
+            # a reference citation has no groups: its identity, if it has one at all, is the name it was found by, which lives in metadata.
+            # Neither C06 (resources are made from full citations) nor C16 (case / law / journal / id / unknown citations) constrains it
+            bad -= {"metadata"}
         ctx.ob(f"{pfx}-H2", construct, not bad and not problems,
                f"value hash must not read context fields; reads={sorted(attrs)} forbidden={sorted(bad)} {problems}",
                node=fn, mod=m)
